@@ -183,7 +183,7 @@ static Verdict runD(const D &d) {
     prd::FileOut fo; prd::Strict st; st.check_total_uncompressed = false; st.check_rg_total_byte_size = false;
     if (!prd::read_file(bytes, fo, err, st)) { vd.vacuous = true; vd.label("structure_invalid(reported_by_C05)"); return vd; }
     for (size_t g = 0; g < fo.chunks.size(); g++) { rg_rows.push_back(fo.meta.row_groups[g].num_rows);
-      for (size_t c = 0; c < fo.chunks[g].size(); c++) { bool first = true; for (auto &pg : fo.chunks[g][c].pages) { if (!pg.hdr.crc) continue; PageRef pr{(int)g, (int)c, pg.is_dict, pg.body_off, pg.body_len, pg.first_entry, first, fo.meta.row_groups[g].columns[c].meta->codec}; pages.push_back(pr); first = false; } } }
+      for (size_t c = 0; c < fo.chunks[g].size(); c++) { bool first = true; for (auto &pg : fo.chunks[g][c].pages) { PBT_CHECK(vd, (bool)pg.hdr.crc, "carquet wrote a page without a checksum (row group %zu, column %zu, writer options %d): damage to it cannot be detected by any reader", g, c, d.w.opts); PageRef pr{(int)g, (int)c, pg.is_dict, pg.body_off, pg.body_len, pg.first_entry, first, fo.meta.row_groups[g].columns[c].meta->codec}; pages.push_back(pr); first = false; } } }
   } else {
     pw::Written w = pw::write_file(d.fs);
     bytes = w.bytes;
